@@ -61,7 +61,8 @@ func ZZ_C12_stalledConsumer() {
 	zz.Assert("beacon_is_stored", last != nil && last.Round == uint64(q+1))
 }
 
-// ZZ_C12_streamLeavesOnError: a stream whose Send fails removes its callback and returns the error once.
+// ZZ_C12_streamLeavesOnError: a stream whose Send fails, or whose client disconnects, removes its callback (and
+// with it the per-stream queue and worker) and returns the error once: departed followers leave nothing behind.
 func ZZ_C12_streamLeavesOnError() {
 	bg := context.Background()
 	base := memdb.NewStore(10)
@@ -69,7 +70,18 @@ func ZZ_C12_streamLeavesOnError() {
 	for r := 0; r < 2; r++ {
 		_ = cbs.Put(bg, &common.Beacon{Round: uint64(r), Signature: []byte{byte(r)}})
 	}
-	st := &zzStream{ctx: bg, fail: 1 + zz.Choose("fail_at", 3)} // fail the 1st..3rd send
+	// the follower leaves either because a send to it fails, or because it disconnects (its stream's context ends)
+	// at some point after its callback was attached
+	disconnects := zz.Bool("follower_disconnects")
+	ctx, cancel := context.WithCancel(zz.WithRemote(bg, "follower.example:1"))
+	defer cancel()
+	st := &zzStream{ctx: ctx}
+	leaveAfter := 0
+	if disconnects {
+		leaveAfter = 2 + zz.Choose("disconnects_after_round", 3) // after round 2, 3 or 4 was stored
+	} else {
+		st.fail = 1 + zz.Choose("fail_at", 3) // fail the 1st..3rd send
+	}
 	var ret error
 	done := false
 	go func() {
@@ -80,9 +92,15 @@ func ZZ_C12_streamLeavesOnError() {
 	for r := 2; r < 5; r++ {
 		_ = cbs.Put(bg, &common.Beacon{Round: uint64(r), Signature: []byte{byte(r)}})
 		zz.Quiesce()
+		if r == leaveAfter {
+			cancel()
+			zz.Quiesce()
+		}
 	}
 	zz.Assert("stream_returned_with_error", done && ret != nil)
-	zz.Assert("sent_stops_at_failure", len(st.sent) == st.fail-1)
+	if !disconnects {
+		zz.Assert("sent_stops_at_failure", len(st.sent) == st.fail-1)
+	}
 	cbs.RLock()
 	n := len(cbs.callbacks)
 	j := len(cbs.newJob)
